@@ -3,7 +3,8 @@ import z3
 from mirsym.executor import PyObj, Unsupported
 from mirsym.values import Enum
 from lib.runner import Task
-from mirsym.values import Int, Agg
+from mirsym.values import Int, Agg, Opaque, unit
+from mirsym.explore import Violation
 from mirsym.explore import check
 from mirsym.models import zbool
 
@@ -219,6 +220,8 @@ _range_classify = classify
 def classify(t, v):   # noqa: F811
     if t.factory == 'file_source_harness':
         return 'file/' + v['msg'][:50]
+    if t.factory != 'range_tiling':
+        return t.role + '/' + v['msg'][:50]
     return _range_classify(t, v)
 
 
@@ -377,4 +380,261 @@ def TASKS(tier):     # noqa: F811
         ts.append(Task('iterator_source_%d' % n, 'iterator_source_harness', {'n': n},
                        bounds='IteratorSource over %d symbolic items' % n, role='iterator_source',
                        opts={'covers': ['end']}))
+    return ts
+
+
+# ------------------------------------------------------------------------------------ CSV source
+
+class CsvBuilder(PyObj):
+    """csv::ReaderBuilder: only has_headers matters to the model of the reader"""
+    name = 'ReaderBuilder'
+
+    def __init__(self):
+        self.has_headers = True
+
+    def trait_call(self, ex, trait, method, args):
+        from mirsym.values import Ref
+        if method == 'has_headers':
+            self.has_headers = bool(args[1]) if isinstance(args[1], bool) else ex.branch(args[1], 'has_headers')
+        if method == 'from_reader':
+            return CsvReader(args[1], self.has_headers)
+        return args[0]          # the builder methods return &mut Self
+
+
+class CsvHeaderReader(PyObj):
+    """csv::Reader over the header line only (used to parse the headers)"""
+    name = 'Reader'
+
+    def trait_call(self, ex, trait, method, args):
+        from mirsym.values import Ref, Opaque
+        from mirsym.models import ok
+        if method == 'byte_headers':
+            return ok(Ref([Opaque('ByteRecord(headers)')], 0))
+        return NotImplemented
+
+
+class CsvRecordBuf(PyObj):
+    name = 'ByteRecord'
+
+    def __init__(self):
+        self.cur = None
+
+    def trait_call(self, ex, trait, method, args):
+        from mirsym.models import ok
+        from mirsym.models_coll import VecModel
+        if method == 'deserialize':
+            return ok(VecModel(list(self.cur)))
+        return NotImplemented
+
+
+class CsvReader(PyObj):
+    """Model of csv::Reader<R> (csv 1.3 `read_byte_record`, csv-core record splitting) for unquoted data: the byte
+    stream is pulled through the REAL `<LimitedReader<_> as Read>::read`; records are the non-empty maximal runs of
+    non-terminator bytes (terminator CRLF: `\\r` and `\\n` both end a record, empty lines are skipped, a last record
+    without terminator counts); header handling as in csv::Reader::read_byte_record"""
+    name = 'Reader'
+
+    def __init__(self, inner, has_headers):
+        self.inner = [inner]
+        self.has_headers = has_headers
+        self.headers_set = False
+        self.records = None
+        self.k = 0
+
+    def _load(self, ex):
+        from mirsym.values import Ref, SliceRef
+        from mirsym.models import deref
+        rd = [f for f in ex.w.prog.functions if f.name.endswith('::read') and 'csv.rs' in f.name]
+        if len(rd) != 1:
+            raise Unsupported('LimitedReader::read not found')
+        stream = []
+        total = len(ex.env['file_bytes'])
+        for _ in range(total + 2):
+            scratch = [Int('u8', 0) for _ in range(total + 1)]
+            r = ex.call_function(rd[0], [Ref(self.inner, 0), SliceRef(scratch, 0, len(scratch))])
+            if r.variant != 'Ok':
+                raise Unsupported('LimitedReader::read failed')
+            n = ex.concretize(r.fields[0])
+            if n == 0:
+                break
+            stream += scratch[:n]
+        else:
+            raise Violation('LimitedReader keeps returning data')
+        recs, cur = [], []
+        for b in stream:
+            is_nl = ex.branch(ex.binop('Eq', b, Int('u8', 10)), 'csv: newline')
+            is_cr = (not is_nl) and ex.branch(ex.binop('Eq', b, Int('u8', 13)), 'csv: carriage return')
+            if is_nl or is_cr:
+                if cur:
+                    recs.append(cur)
+                cur = []
+            else:
+                cur.append(b)
+        if cur:
+            recs.append(cur)
+        self.records = recs
+
+    def _read_impl(self, ex, buf):
+        if self.records is None:
+            self._load(ex)
+        if self.k >= len(self.records):
+            return False
+        buf.cur = self.records[self.k]
+        self.k += 1
+        return True
+
+    def trait_call(self, ex, trait, method, args):
+        from mirsym.models import ok, deref
+        if method == 'set_byte_headers':
+            self.headers_set = True
+            return unit()
+        if method == 'read_byte_record':
+            buf = deref(args[1])
+            got = self._read_impl(ex, buf)
+            if not self.headers_set:
+                self.headers_set = True
+                if self.has_headers:
+                    got = self._read_impl(ex, buf)       # the first record was the header row: skip it
+            return ok(got)
+        return NotImplemented
+
+
+def _install_csv_models(w):
+    from mirsym.models import ok
+    M = w.models
+    if 'ReaderBuilder::new' in M:
+        return
+
+    class OpenOpts(PyObj):
+        name = 'OpenOptions'
+
+        def trait_call(self, ex, trait, method, args):
+            if method == 'open':
+                return M['File::open'](ex, None, args[1:])
+            return args[0]
+    M['File::options'] = lambda ex, c, a: OpenOpts()
+    M['ReaderBuilder::new'] = lambda ex, c, a: CsvBuilder()
+    M['Reader::from_reader'] = lambda ex, c, a: CsvHeaderReader()
+    M['<ByteRecord as ToOwned>::to_owned'] = lambda ex, c, a: Opaque('ByteRecord(headers)')
+
+    def bufreader_read(ex, c, a):
+        """<BufReader<File> as Read>::read: copies as many bytes as fit (a read may return fewer; returning all that
+        is available is one legal behaviour and the one a regular file shows)"""
+        from mirsym.models import deref
+        f = deref(a[0])
+        buf = a[1]
+        n = min(len(buf), len(f.data) - f.pos)
+        for i in range(n):
+            buf.items[buf.lo + i] = f.data[f.pos + i]
+        f.pos += n
+        return ok(Int('usize', n))
+    M['<BufReader as Read>::read'] = bufreader_read
+    M['<File as Read>::read'] = bufreader_read
+
+
+def csv_source_harness(w, size, replicas, has_headers, crlf=False):
+    """every file content of `size` bytes over the alphabet {'7', '\\n'} (+ '\\r' directly before '\\n' with `crlf`)
+    read by `replicas` replicas: the records of the body (everything after the header line when has_headers) are
+    emitted exactly once across the replicas"""
+    from mirsym import hlib
+    from mirsym.values import Ref, Opaque, Enum, Agg
+    from mirsym.models import none
+    from mirsym.models_coll import VecModel
+    from mirsym.explore import Violation
+    from props.start import exec_metadata
+    setup = w.impls[('Operator', 'CsvSource')]['setup'][0]
+    nxt = w.impls[('Operator', 'CsvSource')]['next'][0]
+    _install_csv_models(w)
+
+    def h(ex):
+        data = [ex.fresh_int('u8', 'byte%d' % i) for i in range(size)]
+        for i, b in enumerate(data):
+            opts = [b.v == 0x37, b.v == 10]
+            if crlf and i + 1 < size:
+                opts.append(z3.And(b.v == 13, data[i + 1].v == 10))
+            ex.assume(z3.Or(*opts))
+        ex.env['file_bytes'] = data
+        emitted = []
+        # the records the job must deliver: body = after the first '\n' when the file has a header line
+        def oracle_records(is_nl, is_cr):
+            body_from = 0
+            if has_headers:
+                body_from = size
+                for i in range(size):
+                    if is_nl(i):
+                        body_from = i + 1
+                        break
+            recs, cur = [], []
+            for i in range(body_from, size):
+                if is_nl(i) or is_cr(i):
+                    if cur:
+                        recs.append(cur)
+                    cur = []
+                else:
+                    cur.append(i)
+            if cur:
+                recs.append(cur)
+            return recs
+        if ex.env.get('native'):
+            runner, prof = ex.env['native']
+            ex.env['native_used'] = True
+            vals = [hlib.concrete_int(ex, b) for b in data]
+            txt = runner('csv_source', [replicas, int(has_headers), size] + vals)[prof]
+            ex.env['native_out'] = txt
+            if txt == 'PANIC' or 'OVERRUN' in txt or txt.startswith(('BADARGS', 'UNKNOWN', 'NORESULT')):
+                raise Violation('the real CsvSource panicked / did not terminate: %s' % txt, hlib._wit(ex))
+            got = sorted(tok for sec in txt.split('|') for tok in sec.split())
+            recs = oracle_records(lambda i: vals[i] == 10, lambda i: vals[i] == 13)
+            want = sorted(''.join(chr(vals[i]) for i in r) for r in recs)
+            if got != want:
+                raise Violation('CSV records are not emitted exactly once across the replicas (got %s, expected %s)' %
+                                (got, want), hlib._wit(ex), {'size': size, 'replicas': replicas, 'bytes': vals, 'native': txt})
+            return {'native': txt}
+        for g in range(replicas):
+            term = Enum('Terminator', 'CRLF', 0, [])
+            options = hlib.mk_struct(w, 'CsvOptions', comment=none(), delimiter=Int('u8', 44), double_quote=True,
+                                     escape=none(), flexible=False, quote=Int('u8', 34), quoting=True, terminator=term,
+                                     trim=Enum('Trim', 'None', 0, []), has_headers=bool(has_headers))
+            src = hlib.mk_struct(w, 'CsvSource', path=Opaque('PathBuf'), csv_reader=none(), options=options,
+                                 terminated=False, _out=Agg('struct', 'PhantomData', [], []), buf=CsvRecordBuf())
+            md = exec_metadata(w, hlib.coord(w, 0, 0, g), False)
+            md.set('global_id', Int('u64', g))
+            md.set('replicas', VecModel([hlib.coord(w, 0, 0, i) for i in range(replicas)]))
+            holder = [src]
+            ex.call_function(setup, [Ref(holder, 0), Ref([md], 0)])
+            out = hlib.drive(ex, nxt, holder, size + 4)
+            hlib.check_grammar(ex, out, 1, 'CsvSource output')
+            for e in out:
+                if e.variant == 'Item':
+                    emitted.append((g, [id_of(b) for b in e.fields[0].items]))
+        recs = oracle_records(lambda i: ex.branch(ex.binop('Eq', data[i], Int('u8', 10)), 'oracle: newline'),
+                              lambda i: ex.branch(ex.binop('Eq', data[i], Int('u8', 13)), 'oracle: cr'))
+        want = sorted([id_of(data[i]) for i in r] for r in recs)
+        got = sorted(l for _, l in emitted)
+        sx = {'size': size, 'replicas': replicas, 'has_headers': has_headers, 'records': want, 'emitted': emitted}
+        if got != want:
+            raise Violation('CSV records are not emitted exactly once across the replicas', hlib._wit(ex), sx)
+        if len(want) > 1:
+            hlib.cover(ex, 'multi_record')
+        return sx
+    return h
+
+
+_pre_csv_tasks = TASKS
+
+
+def TASKS(tier):     # noqa: F811
+    ts = _pre_csv_tasks(tier)
+    sizes = range(0, 8) if tier == 'quick' else range(0, 11)
+    reps = [1, 2, 3, 4, 5, 9] if tier == 'quick' else [1, 2, 3, 4, 5, 7, 8, 9, 12]
+    for hh in (False, True):
+        for n in sizes:
+            for r in reps:
+                crlf = tier != 'quick'
+                ts.append(Task('csv_%s_%db_%dr' % ('hdr' if hh else 'nohdr', n, r), 'csv_source_harness',
+                               {'size': n, 'replicas': r, 'has_headers': hh, 'crlf': crlf},
+                               bounds='CsvSource::setup+next (+ the real LimitedReader) on every replica; file of %d symbolic '
+                                      'bytes over {"7", LF%s}, %d replicas, has_headers=%s; csv::Reader modelled (unquoted data)' %
+                                      (n, ', CR before LF' if crlf else '', r, hh),
+                               role='csv', opts={'covers': ['multi_record'] if n >= 3 + 2 * hh else []}, budget=400))
     return ts
